@@ -401,7 +401,16 @@ class Interp:
             try:
                 return self.ev.integer(e, env)
             except Unanalysable:
+                pass
+            try:
                 return tuple(self.ev.array(e))
+            except Unanalysable:
+                pass
+            bs = self.ev.bytes(e)
+            try:
+                return bytes(bs).decode('utf-8')
+            except (UnicodeDecodeError, ValueError, TypeError):
+                raise Unanalysable(f'constant `{p}` has no value the evaluator models')
         if k == 'cast':
             v = self.val(e['a'], env)
             ty = (e.get('t') or '').strip()
@@ -1053,25 +1062,62 @@ class ParseValueInterp(FxInterp):
 
 
 class RecInterp(FxInterp):
-    """FxInterp that records calls of the named methods (receiver not evaluated further) instead of following them:
-    env['@calls'] collects (name, [argument values])."""
+    """FxInterp that records calls of the named methods / functions instead of following them.  `self.calls` collects (name, [argument values]);
+    a recorded call evaluates to ('rec', name, receiver value or None, [argument values]) so that later records show what flowed where.
+    `x.field.take()` on a modelled struct empties the field."""
 
-    def __init__(self, ev, record):
+    def __init__(self, ev, record, record_fns=()):
         super().__init__(ev)
         self.record = set(record)
+        self.record_fns = set(record_fns)
         self.calls = []
 
     def val(self, e, env):
-        if e.get('k') == 'call' and (peel(e.get('f', {})).get('path') or '') in ('core::mem::replace', 'std::mem::replace', 'core::mem::swap', 'core::mem::take'):
-            self.calls.append((last_seg(peel(e['f'])['path']), []))
-            return ('opaque',)
-        if e.get('k') == 'mcall' and e.get('name') in self.record:
+        k = e.get('k')
+        if k == 'call':
+            path = peel(e.get('f', {})).get('path') or ''
+            if path in ('core::mem::replace', 'std::mem::replace', 'core::mem::swap', 'core::mem::take'):
+                self.calls.append((last_seg(path), []))
+                return ('opaque',)
+            if last_seg(path) in self.record_fns and not (peel(e.get('f', {})).get('res') or '').startswith('Ctor'):
+                args = []
+                for a in e.get('args', []):
+                    try:
+                        args.append(self.val(a, env))
+                    except Unanalysable:
+                        args.append(('opaque',))
+                self.calls.append((last_seg(path), args))
+                return ('rec', last_seg(path), None, args)
+        if k == 'mcall' and e.get('name') == 'take' and not e.get('args'):
+            r = peel(e['recv'])
+            if r.get('k') == 'field':
+                try:
+                    base = self.val(r['base'], env)
+                except Unanalysable:
+                    base = None
+                if isinstance(base, tuple) and len(base) == 3 and base[0] == 'struct' and r.get('name') in base[2]:
+                    old = base[2][r['name']]
+                    base[2][r['name']] = ('ctor', 'core::option::Option::None')
+                    return old
+        if k == 'mcall' and e.get('name') in self.record:
             args = []
             for a in e.get('args', []):
                 try:
                     args.append(self.val(a, env))
                 except Unanalysable:
                     args.append(('opaque',))
+            try:
+                recv = self.val(e['recv'], env)
+            except Unanalysable:
+                recv = None
             self.calls.append((e['name'], args))
-            return ('opaque',)
+            return ('rec', e['name'], recv, args)
+        if k == 'mcall':
+            # adaptors applied to the result of a recorded call (`.map(Some)`, `.map_err(..)`, `?`-less chains) keep standing for that result
+            try:
+                recv = self.val(e['recv'], env)
+            except Unanalysable:
+                recv = None
+            if isinstance(recv, tuple) and recv and recv[0] == 'rec':
+                return recv
         return super().val(e, env)
